@@ -135,6 +135,11 @@ def run(P, R):
     optional_uses(P, R, r4)
 
     empty_literal_flow(P, R, r4)
+    # the parsed status formula is user data too: an access that no type fact justifies raises AttributeError /
+    # IndexError out of ApplicationStatus.update, i.e. out of every handler that updates an application (same
+    # obligations as C15.R1)
+    from .c15 import rule_ast_access
+    rule_ast_access(P, R, r4)
 
     # ---------------------------------------------------------------- R5
     r5 = R.rule('R5', 'dispatch totality', 'enum-dispatched constructors never yield None: create_strategy and '
